@@ -368,8 +368,21 @@ class ActStep(Harness):
                 def task_sequence(self, ts):
                     calls.append(("ts", ts.worker, tuple(ts.tasks), frozenset(ts.publish)))
 
+                def get_environment(self):
+                    return env
+
+            # a real controller state for a job in which `t` consumes p0..p{n-1}, on three hosts
+            from cascade.low.core import Environment, Worker
+
+            d = TaskDefinition(func=func_enc(0, 1), environment=[], entrypoint="", input_schema={}, output_schema={"0": "Any"})
+            tasks = {f"p{k}": TaskInstance(definition=d, static_input_kw={}, static_input_ps={}) for k in range(params["n"])}
+            tasks["t"] = TaskInstance(definition=d, static_input_kw={}, static_input_ps={})
+            edges = [Task2TaskEdge(source=DatasetId(f"p{k}", "0"), sink_task="t", sink_input_kw=None, sink_input_ps=k) for k in range(params["n"])]
+            job = JobInstance(tasks=tasks, edges=edges, ext_outputs=[DatasetId("t", "0")])
+            env = Environment(workers={WorkerId(h, wn): Worker(cpu=1, gpu=0, memory_mb=1024) for h in hosts for wn in ("w0", "w1")})
+            state = s_api.initialize(env, s_graph.precompute(job), set(job.ext_outputs))
             try:
-                c_act.act(Rec(), None, Assignment(worker=w, tasks=["t"], prep=list(prep), outputs=set(outs)))
+                c_act.act(Rec(), state, Assignment(worker=w, tasks=["t"], prep=list(prep), outputs=set(outs)))
             except Exception as e:
                 raise Violation(f"act-raised-{type(e).__name__}", str(e)[:200])
             ch.note("prep", [(repr(d), h) for d, h in prep])
